@@ -12,7 +12,7 @@ func (r *replica) snap() *chainSnap {
 	res.Obs = map[string]interface{}{}
 	chainInvariants["balances"](r, &res)
 	s := &chainSnap{Height: r.height, Time: r.time.Unix(), Bal: map[string]int64{}}
-	for k, v := range res.Obs["balances"].(map[string]string) {
+	for k, v := range res.Obs["balances"].(map[string]string) { // typed maps in-process (JSON only between processes)
 		n, _ := strconv.ParseInt(v, 10, 64)
 		s.Bal[k] = n
 	}
